@@ -59,6 +59,7 @@ class CEmitter:
         self.lib_used = set()
         self.ld_standin = False
         self.helpers = {}        # name -> C text of generated library-contract helpers
+        self.abstract_sqrt = False   # emit sqrt as its (assumed) libm contract instead of CBMC's bit-precise model
         self.tables_used = {}    # tid -> set of helper kinds
         self.strings = []        # interned string_view values (C representation: index)
 
@@ -240,6 +241,16 @@ class CEmitter:
         if name == 'PI':
             return self.ex(args[0])
         suf = {'float': 'f', 'double': '', 'long double': 'l'}.get(t[1] if t[0] == 'f' else 'double', '')
+        if name == 'sqrt' and self.abstract_sqrt and t[0] == 'f':
+            tag = {'float': 'f', 'double': 'd', 'long double': 'ld'}[t[1]]
+            fn = 'phqv_sqrt_%s' % tag
+            uf = '__CPROVER_uninterpreted_sqrt_%s' % tag
+            ct = self.ctype(t)
+            self.lib_used.add(('decl', uf, ct, (ct,)))
+            self.helpers[fn] = ('/* libm sqrt replaced by its contract (assumed: correctly rounded): r >= 0, r > 0 for x > 0, monotone bounds */\n'
+                                'static %s %s(%s x) {\n  __CPROVER_assert(x >= 0, "sqrt argument non-negative");\n  %s r = %s(x);\n'
+                                '  __CPROVER_assume(r >= 0 && (x > 0 ? r > 0 : r == 0) && (x >= 1 ? (r >= 1 && r <= x) : (r <= 1 && r >= x)));\n  return r;\n}\n') % (ct, fn, ct, ct, uf)
+            return '%s(%s)' % (fn, self.ex(args[0]))
         if name == 'sqrt':
             return 'sqrt%s(%s)' % (suf, self.ex(args[0]))
         if name == 'acos' and t[0] == 'f':
